@@ -17,6 +17,7 @@ type kind struct {
 }
 
 var kinds = map[string]kind{
+	"shard": {genShard, runShard},
 	"prod":  {genProd, runProd},
 	"idem":  {genIdem, runIdem},
 	"cons":  {genCons, runCons},
